@@ -5,6 +5,11 @@ package codecx
 import (
 	"encoding/base64"
 	"fmt"
+	"sort"
+
+	_ "github.com/pentops/j5/gen/j5/state/v1/psm_j5pb"
+	"github.com/pentops/j5/internal/bcl/internal/verif/j5sgen"
+	"github.com/pentops/j5/internal/bcl/internal/verif/j5sx"
 
 	"github.com/pentops/j5/internal/bcl/internal/verif/j5ref"
 	"github.com/pentops/j5/internal/bcl/internal/verif/mgen"
@@ -181,4 +186,83 @@ func (c Case) BuildSchemaOnly() (*Schema, protoreflect.Message, error) {
 	}
 	s, err := NewSchema(pbs...)
 	return s, nil, err
+}
+
+// DrawCompiled draws a j5s package (G1), compiles it with the production compiler
+// and wraps the resulting descriptors as a Schema: the codec then sees exactly the
+// annotations the compiler writes (keys, dates, decimals, oneof wrappers, flattened
+// objects, entity parts) rather than the ones the raw generator writes.
+func DrawCompiled(t *rapid.T) (*Schema, error) {
+	o := j5sgen.DefaultOpts()
+	o.MaxPackages, o.MaxFiles = 1, 2
+	o.Entities = true
+	b, classes := j5sgen.Draw(t, o)
+	src := &j5sx.Bundle{Files: b.Render()}
+	// production path: compile, print to .proto text, read the text back
+	texts := map[string]string{}
+	for _, p := range b.Packages {
+		files, err := j5sx.Compile(src, p.Name)
+		if err != nil {
+			return nil, fmt.Errorf("generated package does not compile (C07's subject): %w", err)
+		}
+		for _, f := range files {
+			tx, err := j5sx.Print(f)
+			if err != nil {
+				return nil, fmt.Errorf("print (C05's subject): %w", err)
+			}
+			texts[f.Path()] = tx
+		}
+	}
+	img, _, err := j5sx.ReadImage(texts)
+	if err != nil {
+		return nil, fmt.Errorf("printed files do not read back (C05/C16's subject): %w", err)
+	}
+	byName := map[string]*descriptorpb.FileDescriptorProto{}
+	for _, f := range img.File {
+		if _, err := protoregistry.GlobalFiles.FindFileByPath(f.GetName()); err == nil {
+			continue // built-in (j5, google, buf): resolved from the registry
+		}
+		byName[f.GetName()] = f
+	}
+	var pbs []*descriptorpb.FileDescriptorProto
+	seen := map[string]bool{}
+	var add func(name string)
+	add = func(name string) {
+		f := byName[name]
+		if f == nil || seen[name] {
+			return
+		}
+		seen[name] = true
+		for _, d := range f.Dependency {
+			add(d)
+		}
+		pbs = append(pbs, f)
+	}
+	names := make([]string, 0, len(byName))
+	for n := range byName {
+		names = append(names, n)
+	}
+	sort.Strings(names)
+	for _, n := range names {
+		add(n)
+	}
+	s, err := NewSchema(pbs...)
+	if err != nil {
+		return nil, fmt.Errorf("compiled files do not link: %w", err)
+	}
+	// request/response/topic messages are included; keep only messages with fields first
+	sort.SliceStable(s.Msgs, func(i, j int) bool { return s.Msgs[i].Fields().Len() > s.Msgs[j].Fields().Len() })
+	for k := range classes {
+		s.Classes[k] = true
+	}
+	return s, nil
+}
+
+// DrawFrom draws a schema from the named source: "raw" (G2, supported subset) or
+// "j5s" (G1 compiled by the production compiler).
+func DrawFrom(t *rapid.T, source string) (*Schema, error) {
+	if source == "j5s" {
+		return DrawCompiled(t)
+	}
+	return DrawSchema(t, pgen.Supported)
 }
